@@ -406,3 +406,54 @@ func TestC11Server(t *testing.T) {
 		rec.Case(true, "server|"+text, "server:upgraded-with-pipelined-frame")
 	})
 }
+
+// FuzzC11: coverage-guided search over the request text with the independent
+// predicate as oracle (thorough tier).
+func FuzzC11(f *testing.F) {
+	f.Add("GET /ws HTTP/1.1\r\nHost: verif.test\r\nConnection: Upgrade\r\nUpgrade: websocket\r\nSec-WebSocket-Version: 13\r\nSec-WebSocket-Key: dGhlIHNhbXBsZSBub25jZQ==\r\n\r\n")
+	f.Add("GET /ws HTTP/1.1\r\nHost: verif.test\r\nConnection: keep-alive, Upgrade\r\nUpgrade: h2c, WebSocket\r\nSec-WebSocket-Version: 13\r\nSec-WebSocket-Key: AAAAAAAAAAAAAAAAAAAAAA==\r\nSec-WebSocket-Protocol: chat, superchat\r\n\r\n")
+	f.Add("POST /ws HTTP/1.0\r\nHost: verif.test\r\nConnection: close\r\n\r\n")
+	f.Fuzz(func(t *testing.T, text string) {
+		if len(text) > 2000 {
+			t.Skip()
+		}
+		for i := 0; i < len(text); i++ {
+			if c := text[i]; c != '\r' && c != '\n' && (c < 0x20 || c > 0x7e) {
+				t.Skip() // printable ASCII request text
+			}
+		}
+		raw := ref.ParseRawRequest(text)
+		if !raw.OK || !strings.HasSuffix(text, "\r\n\r\n") || strings.Count(text, "\r\n\r\n") != 1 || strings.Contains(strings.ReplaceAll(text, "\r\n", ""), "\n") || strings.Contains(strings.ReplaceAll(text, "\r\n", ""), "\r") {
+			t.Skip()
+		}
+		// only the headers the property is about may vary freely; continuation lines,
+		// duplicate Host, Content-Length etc. are net/http's business
+		for _, h := range raw.Headers {
+			switch h[0] {
+			case "host", "connection", "upgrade", "sec-websocket-version", "sec-websocket-key", "sec-websocket-protocol":
+			default:
+				t.Skip()
+			}
+			if strings.HasPrefix(h[1], " ") || h[0] != strings.TrimSpace(h[0]) {
+				t.Skip()
+			}
+		}
+		if len(raw.Values("host")) != 1 || raw.Values("host")[0] == "" || raw.Target != "/ws" {
+			t.Skip()
+		}
+		r, err := http.ReadRequest(bufio.NewReader(strings.NewReader(text)))
+		if err != nil {
+			t.Skip()
+		}
+		verdict, key := c11Verdict(text)
+		sv, aerr := wsx.AcceptReq(r, &websocket.AcceptOptions{Subprotocols: []string{"chat", "echo"}}, nil)
+		out := c11Outcome{Code: sv.W.Code, Hijacked: sv.W.Hijacked, Conn: sv.Conn, Err: aerr, H: sv.W.H}
+		msg := checkC11(c11Req{Supported: []string{"chat", "echo"}}, text, verdict, key, out)
+		if sv.Conn != nil {
+			sv.Conn.CloseNow()
+		}
+		if msg != "" {
+			t.Fatalf("C11 fuzz verdict=%s: %s\nrequest: %q", verdict, msg, text)
+		}
+	})
+}
